@@ -105,6 +105,10 @@ impl StrategyPlanner {
                     && std::fs::read_link(&dest_path).ok() == source.symlink_target
                 {
                     SyncAction::Skip
+                } else if self.follow_symlinks && self.followed_copy_is_current(source, &dest_meta) {
+                    // follow mode keeps a copy of the file the link resolves to: nothing to do when
+                    // that copy is up to date (the entry used to be copied again on every run)
+                    SyncAction::Skip
                 } else {
                     SyncAction::Update
                 };
@@ -367,6 +371,34 @@ impl StrategyPlanner {
     }
 
     /// Check if file needs update based on size and mtime
+    /// Follow mode: is the regular file at the destination an up-to-date copy of the file the
+    /// source link resolves to (judged like any other file: size and modification time)?
+    fn followed_copy_is_current(&self, source: &FileEntry, dest_meta: &std::fs::Metadata) -> bool {
+        if !dest_meta.is_file() {
+            return false;
+        }
+        // metadata() resolves the link from where it is, like the copy does
+        let Ok(referent) = std::fs::metadata(&source.path) else {
+            return false;
+        };
+        let (Ok(referent_mtime), Ok(dest_mtime)) = (referent.modified(), dest_meta.modified()) else {
+            return false;
+        };
+        if !referent.is_file() {
+            return false;
+        }
+        let mut as_file = source.clone();
+        as_file.size = referent.len();
+        as_file.modified = referent_mtime;
+        !self.needs_update(
+            &as_file,
+            &FileInfo {
+                size: dest_meta.len(),
+                modified: dest_mtime,
+            },
+        )
+    }
+
     fn needs_update(&self, source: &FileEntry, dest_info: &FileInfo) -> bool {
         // Handle comparison flags
 
